@@ -57,7 +57,8 @@ ERRORS = [
     lambda: PermissionError(errno.EACCES, "Permission denied (injected)"),
     lambda: OSError(errno.EIO, "Input/output error (injected)"),
     lambda: FileNotFoundError(errno.ENOENT, "No such file or directory (injected)"),
-    lambda: InterruptedError(errno.EINTR, "Interrupted (injected)"),
+    # (no EINTR / EAGAIN: the io layer itself retries those, PEP 475 -- they are not failures save can see)
+    lambda: OSError(errno.EDQUOT, "Disk quota exceeded (injected)"),
 ]
 
 
